@@ -17,8 +17,8 @@ from . import common
 ID = "C19"
 RULE = (
     "complete enumeration of 18 grids (Cartesian d=1..3 x every periodicity mask, polar, "
-    "spherical, cylindrical +- periodic z) x modes 0..4 x width {None, given} x refine {off, on} "
-    "x threshold {0.5, auto, mean, otsu} = 1440 request configurations, each on field variants "
+    "spherical, cylindrical +- periodic z) x modes 0..4 x width {None, 0.75, 0 (sharp)} x refine {off, on} "
+    "x threshold {0.5, auto, mean, otsu} = 2160 request configurations, each on field variants "
     "(A: one droplet, B: two droplets of different size, C [Cartesian 2-D/3-D]: strongly "
     "anisotropic grid with a two-cell cluster next to an ordinary droplet; thorough: two more "
     "random contents). A case is non-trivial if at least one droplet is returned (so that the "
@@ -44,7 +44,7 @@ def grids():
 
 
 def configs():
-    for (fam, dim, pm), modes, width, refine, thr in itertools.product(grids(), range(5), (None, 0.75), (False, True), THRESHOLDS):
+    for (fam, dim, pm), modes, width, refine, thr in itertools.product(grids(), range(5), (None, 0.75, 0.0), (False, True), THRESHOLDS):
         yield {"family": fam, "dim": dim, "pmask": pm, "modes": modes, "width": width, "refine": refine, "threshold": thr}
 
 
